@@ -163,6 +163,8 @@ func (tmg *TCPMuxGroup) worker() {
 			tmg.acceptCh <- c
 		})
 		if err != nil {
+			// the last member listener has gone: nobody will ever serve this connection
+			c.Close()
 			return
 		}
 	}
